@@ -24,6 +24,8 @@ def _send_code(sends):
         fn = 'send' if s['kind'] == 'send' else 'notify'
         if s.get('delay'):
             lines.append('%s(%r, u=U(), delay=%r)' % (fn, s['name'], s['delay']))
+        elif s.get('zero'):
+            lines.append('%s(%r, u=U(), delay=0, z=1)' % (fn, s['name']))        # z=1 marks "was sent with an explicit delay of 0"
         else:
             lines.append('%s(%r, u=U())' % (fn, s['name']))
     return lines
@@ -92,6 +94,13 @@ class Coder:
         return 'K(%r, time, __old__.v)' % cid
 
 
+def _fresh(name):
+    """An equal but distinct str object (None stays None)."""
+    if name is None:
+        return None
+    return ''.join(list(name)) if len(name) > 1 else name
+
+
 def build_api(ch, coder=None, order=None, transitions=None, klass=None):
     """Build through add_state/add_transition.  ``order``: declaration order of states (parents
     first); ``transitions``: order of transition declarations.  Returns (statechart, tmap) where
@@ -111,10 +120,11 @@ def build_api(ch, coder=None, order=None, transitions=None, klass=None):
         for kind, attr in (('pre', 'preconditions'), ('post', 'postconditions'), ('inv', 'invariants')):
             for cid in s['contracts'][kind]:
                 getattr(o, attr).append(coder.cond(ch, False, cid, kind))
-        sc.add_state(o, s['parent'])
+        # (names are compared by value: every mention of a name is handed over as a str object of its own)
+        sc.add_state(o, _fresh(s['parent']))
     tmap = {}
     for t in (transitions or ch['transitions']):
-        tr = Transition(t['source'], t['target'], event=t['event'], guard=coder.guard(ch, t),
+        tr = Transition(_fresh(t['source']), _fresh(t['target']), event=_fresh(t['event']), guard=coder.guard(ch, t),
                         action=coder.action(ch, t), priority=int(str(t['priority'])))       # (a fresh int object: equal priorities need not be identical objects)
         for kind, attr in (('pre', 'preconditions'), ('post', 'postconditions'), ('inv', 'invariants')):
             for cid in t['contracts'][kind]:
